@@ -75,7 +75,12 @@ def steady_state_transport_solver(
 
     # Check cache for footprint mode
     if cache is not None and footprint:
-        cached = cache.get(z, profiles, domain, modes, meas_pt, halo, precision)
+        # key on the halo actually used and on every result-determining argument
+        halo_used = max(domain) if halo is None else halo
+        cache_extra = (levels, np.shape(srf_flx), analytic, srf_bg_conc)
+        cached = cache.get(
+            z, profiles, domain, modes, meas_pt, halo_used, precision, extra=cache_extra
+        )
         if cached is not None:
             return cached
 
@@ -296,7 +301,17 @@ def steady_state_transport_solver(
 
     # Store to cache for footprint mode
     if cache is not None and footprint:
-        cache.put(z, profiles, domain, modes, meas_pt, halo, precision, *result)
+        cache.put(
+            z,
+            profiles,
+            domain,
+            modes,
+            meas_pt,
+            halo_used,
+            precision,
+            *result,
+            extra=cache_extra,
+        )
 
     return result
 
